@@ -36,6 +36,8 @@ duplicate-point and collinear inputs.
 import Kodama.Lemmas.MstRun
 import Kodama.Lemmas.Tail
 import Kodama.Lemmas.PrimRun
+import Kodama.Lemmas.GenericRun
+import Kodama.Lemmas.GenericExample
 import Kodama.Lemmas.RelabelWF
 namespace Kodama
 variable {α : Type} [Num α]
@@ -134,3 +136,62 @@ example : (2 : Nat) ≤ 4 ∧ 4 < 2147483648 ∧ 2 * (#[1, 2, 3, 4, 5, 6] : Arra
   decide
 
 end Kodama
+
+/-!
+### Appended: `generic_with`
+
+Under the explicit value hypotheses of `Lemmas/GenericInv.lean` (`GoodSet G`, `UpdClosed G m`,
+every (squared) input in `G`, `max_value` not NaN, `OrderLaws`):
+
+* `C12_generic_total`  `generic_with` returns normally or stops in the sort's NaN panic — no index
+                       out of bounds, failed (debug) assertion, `unwrap` on `None`, usize overflow or
+                       exhausted fuel (the lazy repair `loop` terminates within `n + 2` rounds).
+* `C12_generic_ok`     … and, since every recorded height is a matrix entry and hence in `G`
+                       (not NaN), it in fact always returns normally.
+-/
+namespace Kodama
+variable {α : Type} [Num α]
+
+theorem C12_generic_total {G : α → Prop} (L : OrderLaws α) (gs : GoodSet G) (chk : Bool)
+    (m : Method) (hcl : UpdClosed G m) (hmax : Num.isNaN (Num.maxValue : α) = false)
+    (st : State α) (d : Dendrogram α) (data : Array α) (n : Nat) (h2 : 2 ≤ n)
+    (hs : n < 2147483648) (hl : 2 * data.size = n * (n - 1))
+    (hin : ∀ i (h : i < (squareData m data).size), G (squareData m data)[i]) :
+    (∃ r, genericWith chk m st d data n = .ok r) ∨
+      genericWith chk m st d data n = .error .nanInSort := by
+  obtain ⟨st1, dend1, M1, hres, _, heq⟩ :=
+    genericWith_eq L gs chk m hcl hmax st d data n h2 hs hl hin
+  rw [heq]
+  rcases relabel_ok_or_nan m st1.set dend1 n h2 hres.obs hres.raw with ⟨r, hr⟩ | hr
+  · left; exact ⟨_, by rw [hr]; rfl⟩
+  · right; rw [hr]; rfl
+
+theorem C12_generic_ok {G : α → Prop} (L : OrderLaws α) (gs : GoodSet G) (chk : Bool)
+    (m : Method) (hcl : UpdClosed G m) (hmax : Num.isNaN (Num.maxValue : α) = false)
+    (st : State α) (d : Dendrogram α) (data : Array α) (n : Nat) (h2 : 2 ≤ n)
+    (hs : n < 2147483648) (hl : 2 * data.size = n * (n - 1))
+    (hin : ∀ i (h : i < (squareData m data).size), G (squareData m data)[i]) :
+    ∃ r, genericWith chk m st d data n = .ok r := by
+  obtain ⟨st1, dend1, M1, hres, hdg, heq⟩ :=
+    genericWith_eq L gs chk m hcl hmax st d data n h2 hs hl hin
+  rw [heq]
+  obtain ⟨r, hr⟩ := relabel_total m st1.set dend1 n h2 hres.obs hres.raw
+    (Or.inr (Or.inr (fun s hs' => gs.notNaN _ (hdg s hs'))))
+  exact ⟨_, by rw [hr]; rfl⟩
+
+end Kodama
+
+/-! Non-vacuity of the `generic_with` hypotheses: on the toy exact number type every method has a
+good set closed under its update (`GenericExample.hyps_satisfiable`), and the totality theorem
+applies to a concrete 5-point average-linkage run. -/
+section GenericNonVacuity
+open Kodama Kodama.Spec Kodama.GenericExample
+attribute [local instance] Toy.natNum
+
+example : ∃ r, genericWith true .average State.new (Dendrogram.new 0)
+    #[3, 1, 4, 1, 5, 9, 2, 6, 5, 3] 5 = .ok r :=
+  C12_generic_ok Toy.natOrderLaws goodSet_G true .average closed_average GenericExample.hmax
+    State.new (Dendrogram.new 0) _ 5 (by decide) (by decide) (by decide)
+    (squareData_good .average _ (by simp [G, Method.onSquares]))
+
+end GenericNonVacuity
